@@ -31,7 +31,7 @@ func (p *Path) intArg(v value) int {
 func (p *Path) doAssume(c *Term) {
 	if c.isConst() {
 		if c.val == 0 {
-			panic(abortPath{kind: "infeasible", msg: "assume(false)"})
+			panic(abortPath{kind: "infeasible", msg: "assume(false) at " + p.where()})
 		}
 		return
 	}
